@@ -3,7 +3,7 @@
 # tests/demo_<ID>_a/b.rs: confirm (suite passes with the patch, demo fails with / passes without), then run
 # the given quick checks against /repo with the patch applied (and restore /repo).
 id="$1"; ab="$2"; shift 2
-wt=${WT:-/tmp/w3-$id}; AB=$(echo $ab | tr a-z A-Z)
+wt=${WT:-/tmp/w${ROUND:-3}-$id}; AB=$(echo $ab | tr a-z A-Z)
 patch=$wt/patch$AB.diff; demo=demo_${id}_$ab
 export CARGO_NET_OFFLINE=true
 cd "$wt" || exit 2
